@@ -86,42 +86,108 @@ type refMsg struct {
 
 type chanInst struct {
 	snd, rcv [2]*p2p.Channel
-	wire     bytes.Buffer
+	wire     *bytes.Buffer
 	sh       [2]shCh
 	shWire   []shPkt
 	pending  [2][]refMsg // accepted and not yet delivered (reference model: per-channel FIFO)
 	nextSeq  [2]int
 	dead     bool // the receiver reported an error: the connection is over
+	blocking bool // use sendBytes (blocking variant) for sends
+	// zeroPolled[ch]: isSendPending was called again while a zero-length message
+	// occupied the channel's transmission slot
+	zeroPolled [2]bool
 }
 
 type chanViolation struct {
 	kind, size, detail, site string
+	chp1                     int // channel concerned + 1 (0 = unknown)
 }
 
 func newChanInst() *chanInst {
-	in := &chanInst{}
+	in := &chanInst{wire: wirePool.Get().(*bytes.Buffer)}
+	in.wire.Reset()
 	prio := []int{1, 5}
 	for i := 0; i < 2; i++ {
-		mk := func() *p2p.Channel {
-			return p2p.VerifNewChannel(nil, &p2p.ChannelDescriptor{ID: byte(0x20 + i), Priority: prio[i], SendQueueCapacity: chanSendQueueCap, RecvMessageCapacity: chanRecvMsgCap})
+		mk := func(recvBuf int) *p2p.Channel {
+			return p2p.VerifNewChannel(nil, &p2p.ChannelDescriptor{ID: byte(0x20 + i), Priority: prio[i], SendQueueCapacity: chanSendQueueCap, RecvBufferCapacity: recvBuf, RecvMessageCapacity: chanRecvMsgCap})
 		}
-		in.snd[i], in.rcv[i] = mk(), mk()
+		// RecvBufferCapacity is only the initial capacity of the reassembly buffer
+		in.snd[i], in.rcv[i] = mk(1), mk(1152)
 		in.sh[i].sending = -1
 	}
 	return in
 }
 
-func chanMsg(ch, seq, size int) []byte {
-	return pattern(size, uint64(1000+ch*100+seq))
+// message contents are a function of (channel, sequence number, size); they are
+// generated once and shared (read-only: verifyMsgCache checks at the end that
+// nothing wrote into them).
+const maxSeq = 16
+
+var (
+	msgCache    [2][maxSeq][]([]byte)
+	msgCacheSum [2][maxSeq][][32]byte
+)
+
+func init() {
+	for ch := 0; ch < 2; ch++ {
+		for seq := 0; seq < maxSeq; seq++ {
+			for _, size := range msgSizes {
+				m := pattern(size, uint64(1000+ch*100+seq))
+				msgCache[ch][seq] = append(msgCache[ch][seq], m)
+				msgCacheSum[ch][seq] = append(msgCacheSum[ch][seq], sha256.Sum256(m))
+			}
+		}
+	}
+}
+
+var wirePool = sync.Pool{New: func() interface{} { return bytes.NewBuffer(make([]byte, 0, 16384)) }}
+
+// release returns the wire buffer of a finished instance to the pool.
+func (in *chanInst) release() {
+	if in.wire != nil {
+		wirePool.Put(in.wire)
+		in.wire = nil
+	}
+}
+
+func chanMsg(ch, seq, sizeIdx int) []byte {
+	return msgCache[ch][seq][sizeIdx]
+}
+
+func verifyMsgCache() bool {
+	for ch := 0; ch < 2; ch++ {
+		for seq := 0; seq < maxSeq; seq++ {
+			for i := range msgSizes {
+				if sha256.Sum256(msgCache[ch][seq][i]) != msgCacheSum[ch][seq][i] {
+					return false
+				}
+			}
+		}
+	}
+	return true
 }
 
 func (in *chanInst) key() [16]byte {
-	var b bytes.Buffer
+	b := make([]byte, 0, 96)
+	put := func(x int) { b = append(b, byte(x>>8), byte(x)) }
 	for i := 0; i < 2; i++ {
-		fmt.Fprintf(&b, "%v/%d/%d/%d;", in.sh[i].q, in.sh[i].sending, in.sh[i].sent, in.sh[i].recv)
+		put(len(in.sh[i].q))
+		for _, q := range in.sh[i].q {
+			put(q)
+		}
+		put(in.sh[i].sending + 1)
+		put(in.sh[i].sent)
+		put(in.sh[i].recv)
 	}
-	fmt.Fprintf(&b, "%v;%v", in.shWire, in.dead)
-	h := sha256.Sum256(b.Bytes())
+	put(len(in.shWire))
+	for _, p := range in.shWire {
+		b = append(b, byte(p.ch), byte(p.eof))
+		put(p.n)
+	}
+	if in.dead {
+		b = append(b, 1)
+	}
+	h := sha256.Sum256(b)
 	var k [16]byte
 	copy(k[:], h[:16])
 	return k
@@ -136,13 +202,17 @@ func (in *chanInst) apply(op int) (obs string, viol *chanViolation) {
 	case op < nSendOps:
 		ch, size := op/8, msgSizes[op%8]
 		seq := in.nextSeq[ch]
-		msg := chanMsg(ch, seq, size)
-		keep := append([]byte(nil), msg...)
+		keep := chanMsg(ch, seq, op%8)
+		msg := keep
 		var ok bool
-		if len(in.sh[ch].q) >= chanSendQueueCap {
-			ok = in.snd[ch].VerifTrySendBytes(msg)
-		} else {
+		if in.blocking && len(in.sh[ch].q) < chanSendQueueCap {
+			// the blocking variant (what MConnection.Send uses); it arms a 10 s timer
+			// per call, so it is used for the operation under test only and never on
+			// a full queue (where it would block for those 10 s)
+			msg = append([]byte(nil), keep...)
 			ok = in.snd[ch].VerifSendBytes(msg)
+		} else {
+			ok = in.snd[ch].VerifTrySendBytes(msg)
 		}
 		if ok {
 			in.nextSeq[ch]++
@@ -158,35 +228,43 @@ func (in *chanInst) apply(op int) (obs string, viol *chanViolation) {
 			s.sending, s.sent, s.q = s.q[0], 0, s.q[1:]
 		}
 		if op >= opPoll0 {
+			if pend && s.sending == 0 {
+				in.zeroPolled[ch] = true
+			}
 			return fmt.Sprintf("poll/pending=%v", pend), nil
 		}
 		if !pend {
 			return "pump/idle", nil
 		}
 		before := in.wire.Len()
-		n, err := in.snd[ch].VerifWriteMsgPacketTo(&in.wire)
+		n, err := in.snd[ch].VerifWriteMsgPacketTo(in.wire)
 		if err != nil {
 			return "", &chanViolation{kind: "write-error", size: "any", detail: fmt.Sprintf("writeMsgPacketTo into a buffer failed: %v", err)}
 		}
-		_ = n
-		// decode a copy of what was appended (to name the state); the real decode happens in deliver
-		raw := in.wire.Bytes()[before:]
-		pk, derr := decodePacket(bytes.NewReader(raw))
-		if derr != nil {
-			return "", &chanViolation{kind: "codec", size: "any", detail: fmt.Sprintf("packet just written does not decode: %v", derr)}
+		if n != in.wire.Len()-before {
+			return "", &chanViolation{kind: "write-error", size: "any", detail: fmt.Sprintf("writeMsgPacketTo reported %d bytes, wrote %d", n, in.wire.Len()-before)}
 		}
-		in.shWire = append(in.shWire, shPkt{chIndex(pk.ChannelID), len(pk.Bytes), int(pk.EOF)})
-		if pk.EOF == 1 {
+		// name the state by the packet the mechanism is documented to produce (the
+		// real packet is decoded, and checked, by deliver)
+		plen, eof := 0, 1
+		if s.sending >= 0 {
+			plen = s.sending - s.sent
+			if plen > p2p.VerifMaxMsgPacketPayloadSize {
+				plen, eof = p2p.VerifMaxMsgPacketPayloadSize, 0
+			}
+		}
+		in.shWire = append(in.shWire, shPkt{ch, plen, eof})
+		if eof == 1 {
 			s.sending, s.sent = -1, 0
 		} else {
-			s.sent += len(pk.Bytes)
+			s.sent += plen
 		}
-		return fmt.Sprintf("pump/packet/eof=%d/full=%v", pk.EOF, len(pk.Bytes) == p2p.VerifMaxMsgPacketPayloadSize), nil
+		return fmt.Sprintf("pump/packet/eof=%d/full=%v", eof, plen == p2p.VerifMaxMsgPacketPayloadSize), nil
 	default:
 		if in.wire.Len() == 0 {
 			return "deliver/empty", nil
 		}
-		pk, derr := decodePacket(&in.wire)
+		pk, derr := decodePacket(in.wire)
 		if derr != nil {
 			return "", &chanViolation{kind: "codec", size: "any", detail: fmt.Sprintf("packet does not decode: %v", derr)}
 		}
@@ -199,7 +277,7 @@ func (in *chanInst) apply(op int) (obs string, viol *chanViolation) {
 		}
 		msgBytes, err := in.rcv[ch].VerifRecvMsgPacket(pk)
 		if len(in.pending[ch]) == 0 {
-			return "", &chanViolation{kind: "spurious-packet", size: "any", detail: "a packet arrived on a channel with no message outstanding"}
+			return "", &chanViolation{chp1: ch + 1, kind: "spurious-packet", size: "any", detail: "a packet arrived on a channel with no message outstanding"}
 		}
 		head := in.pending[ch][0]
 		cls := sizeClass(len(head.data))
@@ -207,7 +285,7 @@ func (in *chanInst) apply(op int) (obs string, viol *chanViolation) {
 		if err != nil {
 			in.dead = true
 			if !oversize {
-				return "", &chanViolation{kind: "error-on-legit-message", size: cls, detail: fmt.Sprintf("recvMsgPacket returned %v while reassembling a %d-byte message (capacity %d)", err, len(head.data), chanRecvMsgCap)}
+				return "", &chanViolation{chp1: ch + 1, kind: "error-on-legit-message", size: cls, detail: fmt.Sprintf("recvMsgPacket returned %v while reassembling a %d-byte message (capacity %d)", err, len(head.data), chanRecvMsgCap)}
 			}
 			return "deliver/overflow-error", nil
 		}
@@ -215,7 +293,7 @@ func (in *chanInst) apply(op int) (obs string, viol *chanViolation) {
 			in.sh[ch].recv += len(pk.Bytes)
 			return "deliver/partial", nil
 		}
-		got := append([]byte(nil), msgBytes...) // the copy taken "at the callback"
+		got := msgBytes // compared right here, "at the callback" (the slice aliases the channel's reassembly buffer)
 		in.sh[ch].recv = 0
 		in.pending[ch] = in.pending[ch][1:]
 		if !bytes.Equal(got, head.data) {
@@ -226,10 +304,10 @@ func (in *chanInst) apply(op int) (obs string, viol *chanViolation) {
 			case len(in.pending[ch]) > 0 && bytes.Equal(got, in.pending[ch][0].data):
 				kind = "order"
 			}
-			return "", &chanViolation{kind: kind, size: cls, detail: fmt.Sprintf("channel %d: delivered %d bytes, the oldest outstanding message (#%d) has %d bytes", ch, len(got), head.seq, len(head.data))}
+			return "", &chanViolation{chp1: ch + 1, kind: kind, size: cls, detail: fmt.Sprintf("channel %d: delivered %d bytes, the oldest outstanding message (#%d) has %d bytes", ch, len(got), head.seq, len(head.data))}
 		}
 		if oversize {
-			return "", &chanViolation{kind: "oversize-delivered", size: cls, detail: fmt.Sprintf("a %d-byte message was delivered through a channel with receive capacity %d", len(got), chanRecvMsgCap)}
+			return "", &chanViolation{chp1: ch + 1, kind: "oversize-delivered", size: cls, detail: fmt.Sprintf("a %d-byte message was delivered through a channel with receive capacity %d", len(got), chanRecvMsgCap)}
 		}
 		return "deliver/complete/" + cls, nil
 	}
@@ -281,7 +359,7 @@ func (in *chanInst) drain() *chanViolation {
 	for ch := 0; ch < 2; ch++ {
 		if len(in.pending[ch]) > 0 {
 			m := in.pending[ch][0]
-			return &chanViolation{kind: "message-lost", size: sizeClass(len(m.data)), detail: fmt.Sprintf("channel %d: message #%d (%d bytes) was accepted for sending but never arrives although everything was pumped and delivered (%d outstanding)", ch, m.seq, len(m.data), len(in.pending[ch]))}
+			return &chanViolation{chp1: ch + 1, kind: "message-lost", size: sizeClass(len(m.data)), detail: fmt.Sprintf("channel %d: message #%d (%d bytes) was accepted for sending but never arrives although everything was pumped and delivered (%d outstanding)", ch, m.seq, len(m.data), len(in.pending[ch]))}
 		}
 	}
 	return nil
@@ -292,6 +370,11 @@ func (in *chanInst) drain() *chanViolation {
 func runChanOps(ops []int) (in *chanInst, obs string, viol *chanViolation, at int) {
 	in = newChanInst()
 	for i, op := range ops {
+		// the blocking sendBytes arms a 10 s timer per call: it is used for the
+		// operation under test of every history of length <= 4 (and by the
+		// MConnection conformance runs); deeper levels use trySendBytes, which
+		// performs the same queue operation
+		in.blocking = i == len(ops)-1 && len(ops) <= 4
 		if in.dead {
 			return in, obs, nil, i
 		}
@@ -306,7 +389,14 @@ func runChanOps(ops []int) (in *chanInst, obs string, viol *chanViolation, at in
 	return in, obs, nil, len(ops)
 }
 
-func (c *ctx) chanReport(ops []int, v *chanViolation) {
+func (c *ctx) chanReport(in *chanInst, ops []int, v *chanViolation) {
+	if in != nil && v.chp1 > 0 && in.zeroPolled[v.chp1-1] && v.kind != "panic" {
+		// one defect, one class: once isSendPending has been called again on a
+		// zero-length message in the transmission slot, that message is gone; what
+		// is observed afterwards on this channel (nothing arrives / the next message
+		// arrives in its place / its overflow error) is a consequence
+		v = &chanViolation{chp1: v.chp1, kind: "message-lost", size: "zero", detail: "[" + v.kind + "] " + v.detail}
+	}
 	sig := map[string]string{"part": "channel", "kind": v.kind, "size": v.size}
 	if v.site != "" {
 		sig["site"] = v.site
@@ -335,7 +425,7 @@ func (c *ctx) runChanCase(ops []int) {
 		}
 	}
 	if v != nil {
-		c.chanReport(ops, v)
+		c.chanReport(in, ops, v)
 	}
 }
 
@@ -384,28 +474,77 @@ func (c *ctx) exploreChan(maxDepth int) chanStats {
 			for j, b := range h {
 				ops[j] = int(b)
 			}
+			local := map[string]int{}
+			defer func() {
+				for k, n := range local {
+					c.classes.AddN(k, n)
+				}
+			}()
+			// cur is an instance known to be in the parent state (history h, possibly
+			// followed by operations that changed nothing - trail lists what was
+			// really applied to it); an operation that changes nothing leaves it usable
+			var cur *chanInst
+			var trail []int
+			var parentKey [16]byte
 			for op := 0; op < nChanOps; op++ {
+				if cur == nil {
+					var v0 *chanViolation
+					cur, _, v0, _ = runChanOps(ops[:len(h)])
+					if v0 != nil || cur.dead {
+						core.Fatal("history %v no longer replays cleanly", ops[:len(h)])
+					}
+					trail = append(trail[:0], ops[:len(h)]...)
+					parentKey = cur.key()
+				}
+				in := cur
 				ops[len(h)] = op
-				in, obs, v, _ := runChanOps(ops)
+				trail = append(trail, op)
+				in.blocking = len(ops) <= 4
+				var obs string
+				var v *chanViolation
+				if p, pv, stk := core.Try(func() { obs, v = in.apply(op) }); p {
+					v = &chanViolation{kind: "panic", size: "any", site: core.PanicSite(stk), detail: core.FirstLine(pv)}
+				}
 				atomic.AddInt64(&st.transitions, 1)
 				atomic.AddInt64(&c.evals, 1)
 				if v == nil {
 					k := in.key()
+					local["chan/"+obs]++
+					if k == parentKey {
+						continue // nothing changed: keep using the instance
+					}
+					cur = nil
 					dead := in.dead
-					c.classes.Add("chan/" + obs)
+					sh := seen[k[0]%shards]
+					sh.mu.Lock()
+					_, old := sh.m[k]
+					sh.mu.Unlock()
+					nx := next[k[0]%shards]
+					nh := make([]byte, len(ops))
+					for j, o := range ops {
+						nh[j] = byte(o)
+					}
+					if !old {
+						nx.mu.Lock()
+						if curh, ok := nx.m[k]; ok {
+							old = true
+							if bytes.Compare(nh, curh) < 0 {
+								nx.m[k] = nh
+							}
+						}
+						nx.mu.Unlock()
+					}
+					if old {
+						// the state was reached before (and drained then)
+						in.release()
+						continue
+					}
 					p, pv, stk := core.Try(func() { v = in.drain() })
 					if p {
 						v = &chanViolation{kind: "panic", size: "any", site: core.PanicSite(stk), detail: core.FirstLine(pv)}
 					}
 					if v == nil {
-						sh := seen[k[0]%shards]
-						sh.mu.Lock()
-						_, old := sh.m[k]
-						sh.mu.Unlock()
-						if old {
-							atomic.AddInt64(&st.merges, 1)
-							continue
-						}
+						in.release()
 						if dead {
 							// terminal: count as a state, do not expand
 							sh.mu.Lock()
@@ -416,21 +555,21 @@ func (c *ctx) exploreChan(maxDepth int) chanStats {
 							sh.mu.Unlock()
 							continue
 						}
-						nh := make([]byte, len(ops))
-						for j, o := range ops {
-							nh[j] = byte(o)
-						}
-						nx := next[k[0]%shards]
 						nx.mu.Lock()
-						if cur, ok := nx.m[k]; !ok || bytes.Compare(nh, cur) < 0 {
+						if curh, ok := nx.m[k]; !ok || bytes.Compare(nh, curh) < 0 {
 							nx.m[k] = nh
 						}
 						nx.mu.Unlock()
 						continue
 					}
 				}
+				cur = nil
 				atomic.AddInt64(&st.violating, 1)
-				c.chanReport(append([]int(nil), ops...), v)
+				c.chanReport(in, append([]int(nil), trail...), v)
+				in.release()
+			}
+			if cur != nil {
+				cur.release()
 			}
 		})
 		frontier = frontier[:0]
@@ -442,6 +581,7 @@ func (c *ctx) exploreChan(maxDepth int) chanStats {
 		}
 		sort.Slice(frontier, func(a, b int) bool { return bytes.Compare(frontier[a], frontier[b]) < 0 })
 		st.states += int64(len(frontier))
+		st.merges = st.transitions - st.violating - (st.states - 1)
 		st.perDepth = append(st.perDepth, len(frontier))
 		st.maxDepth = depth
 		if len(frontier) > 0 && depth%3 == 0 {
